@@ -47,6 +47,6 @@ func init() {
 			r.Add("BITS.reader", "codecs.(*H265Packet).IsPartitionHead", "FU type 49 tested on the type bits of payload[0]", p.Position(fn.Pos()),
 				len(ts) == 1 && ts[0] == 49, "constants compared with payload[0] bits 6..1: "+u64s(ts))
 		}
-		r.Floor("H265 parser rows", n, 10)
+		r.Floor("H265 parser rows", n, 7)
 	}
 }
